@@ -116,15 +116,17 @@ CLAIMS['C13'] = ('proof',
 CLAIMS['C10'] = ('proof',
     'The three searchers carry exact contracts over a ghost file system (fresh-iff-not-modified incl. the >= boundary, '
     'rebuild overrides age but not stub lists, observers only); compile() is proved to forward rebuild to every '
-    'fileExists call, to report untouched modules as neither generated nor written, and to delete fresh modules from '
-    'the work set.', COMPILE_NOTE + ' Byte-code header layout (bytes 4-8 hold the time stamp) is as the code reads it; '
+    'fileExists call, to report untouched modules as neither generated nor written, to delete fresh modules from '
+    'the work set, and - noDeps - to keep exactly the modules obtained for explicitly requested names (a requested module '
+    'is reported untouched only because a searcher said so; code is generated for requested modules only; D23 fixed).', COMPILE_NOTE + ' Byte-code header layout (bytes 4-8 hold the time stamp) is as the code reads it; '
     'PyPackageSearcher is not under contract (imports packages). Searcher order and the noDeps filter are decided by the '
     'loop structure and invariants of compile(); known finding D18 (stale .pyc masks a fresh .py).', '5 C10')
 CLAIMS['C19'] = ('proof',
     'AbstractBorrower.getData is verified for all option shapes (flavour mismatch -> not-found without touching the '
     'reader, extensions and flavour forwarded, payload handed on verbatim); compile() is proved to consult borrowers '
-    'only for names without generated code, to forward genTexts, to write the borrowed payload verbatim and to keep a '
-    'compiled module from being replaced.', COMPILE_NOTE, '5 C19')
+    'only for names without generated code, to forward genTexts, to write the borrowed payload verbatim, to keep a '
+    'compiled module from being replaced, and to offer every explicitly requested name that stays failed to every '
+    'borrower also under noDeps (D24 fixed).', COMPILE_NOTE, '5 C19')
 CLAIMS['C02'] = ('other',
     'Every grammar action of SmiV2Parser and of the nine relaxation classes is verified, alternative by alternative, '
     'against an expected tree written over the right-hand-side symbols by name and against the value type of its '
